@@ -37,8 +37,14 @@ def _build():
     d1 = subtotal("d12", [1], [2], anchor="top", sid=1)
     d2 = subtotal("d12_3", [1, 2], [3], anchor=1, sid=2)
     p1 = subtotal("p23", [2, 3], anchor="bottom", sid=3)
+    d3 = subtotal("d1_23", [1], [2, 3], anchor="bottom", sid=4)     # several subtrahends
+    p123 = subtotal("p123", [1, 2, 3], anchor="top", sid=5)
+    p12 = subtotal("p12", [1, 2], anchor=2, sid=6)
     cfgs = [{"rows": [d1]}, {"cols": [d1]}, {"rows": [d2, p1]}, {"cols": [d2, p1]},
-            {"rows": [d1], "cols": [p1]}, {"rows": [p1], "cols": [d2]}, {"rows": [d1], "cols": [d2]}]
+            {"rows": [d1], "cols": [p1]}, {"rows": [p1], "cols": [d2]}, {"rows": [d1], "cols": [d2]},
+            # plain subtotal (2-3 addends) x difference with 1-2 subtrahends, both ways round
+            {"rows": [d3], "cols": [p1, p123]}, {"rows": [p12, p123], "cols": [d3]},
+            {"rows": [d3, d2], "cols": [p12]}, {"rows": [p1], "cols": [d3, d2]}]
     reg.add(S.schema2("diff_cat3_x_cat3", A3, B3, weighted=True), (1, 2), configs=cfgs, quick=2, thorough=3)
     reg.add(S.schema2("diff_cat3_x_mr", A3, M), configs=[{"rows": [d1]}, {"rows": [d2, p1]}], quick=2, thorough=3)
     reg.add(S.schema2("diff_mr_x_cat3", M, B3), configs=[{"cols": [d1]}, {"cols": [d2, p1]}], quick=2, thorough=3)
